@@ -103,6 +103,9 @@ type history struct {
 	Init  map[int]string `json:"init"`  // files that exist before the run
 	Ops   []op           `json:"ops"`
 	Tag   string         `json:"tag"`
+	// a reused Interpreter: interp.New once, one Execute per element (Ops is then unused)
+	Runs      [][]op `json:"runs,omitempty"`
+	ResetVars bool   `json:"resetvars,omitempty"` // call ResetVars between the runs
 }
 
 func awkStr(s string) string {
@@ -230,6 +233,22 @@ func (o op) pieces(out string) []string {
 
 func (h history) program() string {
 	var sb strings.Builder
+	if len(h.Runs) > 0 {
+		// one program for all runs of the reused Interpreter; Execute sets RUN
+		sb.WriteString("BEGIN {\n")
+		for i, ops := range h.Runs {
+			if i == 0 {
+				sb.WriteString(fmt.Sprintf("  if (RUN == %d) {\n", i+1))
+			} else {
+				sb.WriteString(fmt.Sprintf("  } else if (RUN == %d) {\n", i+1))
+			}
+			for _, o := range ops {
+				sb.WriteString("    " + strings.ReplaceAll(o.render(h.Mode), "\n", "\n    ") + "\n")
+			}
+		}
+		sb.WriteString("  }\n}\n")
+		return sb.String()
+	}
 	sb.WriteString("BEGIN {\n")
 	for _, o := range h.Ops {
 		sb.WriteString("  " + o.render(h.Mode) + "\n")
@@ -272,25 +291,36 @@ func (h history) modelLine() string {
 	for _, id := range fids {
 		t = append(t, strconv.Itoa(id), hx.HexS(h.Init[id]))
 	}
-	t = append(t, strconv.Itoa(len(h.Ops)))
-	for _, o := range h.Ops {
-		switch o.K {
-		case "P":
-			n := o.Name
-			if o.Dest == "o" || o.Dest == "d" || o.Dest == "v" {
-				n = 0
+	runs := h.Runs
+	if len(runs) == 0 {
+		runs = [][]op{h.Ops}
+	}
+	for _, ops := range runs {
+		t = append(t, strconv.Itoa(len(ops)))
+		for _, o := range ops {
+			switch o.K {
+			case "P":
+				n := o.Name
+				if o.Dest == "o" || o.Dest == "d" || o.Dest == "v" {
+					n = 0
+				}
+				ps := o.pieces(h.Out)
+				if o.Form == "print" && (h.Out == "csv" || h.Out == "tsv") {
+					// through writeCSV: the model's PrintRec
+					t = append(t, "R", o.Dest, strconv.Itoa(n), hx.HexS(ps[0]))
+					continue
+				}
+				t = append(t, "P", o.Dest, strconv.Itoa(n), strconv.Itoa(len(ps)))
+				for _, p := range ps {
+					t = append(t, hx.HexS(p))
+				}
+			case "C", "F", "S", "G", "K", "W":
+				t = append(t, o.K, strconv.Itoa(o.Name))
+			case "I", "E":
+				t = append(t, o.K)
+			case "X":
+				t = append(t, "X", strconv.Itoa(o.Code))
 			}
-			ps := o.pieces(h.Out)
-			t = append(t, "P", o.Dest, strconv.Itoa(n), strconv.Itoa(len(ps)))
-			for _, p := range ps {
-				t = append(t, hx.HexS(p))
-			}
-		case "C", "F", "S", "G", "K", "W":
-			t = append(t, o.K, strconv.Itoa(o.Name))
-		case "I", "E":
-			t = append(t, o.K)
-		case "X":
-			t = append(t, "X", strconv.Itoa(o.Code))
 		}
 	}
 	return strings.Join(t, " ")
@@ -359,9 +389,25 @@ type outcome struct {
 	Files  map[int][]byte
 	Stray  []string // files with names the harness does not know
 	Obs    []string
+	Next   []outcome // multi-run history: the outcomes of the runs after the first
+}
+
+// all: the outcomes of all runs, in order
+func (o outcome) all() []outcome {
+	first := o
+	first.Next = nil
+	return append([]outcome{first}, o.Next...)
 }
 
 func (o outcome) canon() string {
+	var parts []string
+	for _, x := range o.all() {
+		parts = append(parts, x.canon1())
+	}
+	return strings.Join(parts, " ;; ")
+}
+
+func (o outcome) canon1() string {
 	var ids []int
 	for id := range o.Files {
 		ids = append(ids, id)
@@ -384,6 +430,10 @@ func (o outcome) canon() string {
 
 var homeDir string
 
+// runImpl runs the history against the implementation in a fresh temporary directory: a single-run
+// history through interp.ExecProgram; a multi-run history (h.Runs) through interp.New once and one
+// Execute per run on that Interpreter, every run with a new Output of the history's kind.  The
+// outcomes of the runs after the first hang off the first (Next).
 func runImpl(h history) (oc outcome, herr error) {
 	dir, err := os.MkdirTemp("", "c13run")
 	if err != nil {
@@ -408,91 +458,121 @@ func runImpl(h history) (oc outcome, herr error) {
 	if err != nil {
 		return oc, fmt.Errorf("parse: %v\n%s", err, h.program())
 	}
-	fw := &failW{limit: h.Limit}
-	var output io.Writer
-	var bw *bufio.Writer
-	var of *os.File
-	switch h.Mode {
-	case "osfile":
-		of, err = os.CreateTemp("", "c13out")
-		if err != nil {
-			return oc, err
+	nruns := len(h.Runs)
+	multi := nruns > 0
+	if !multi {
+		nruns = 1
+	}
+	var ip *interp.Interpreter
+	var outs []outcome
+	for run := 1; run <= nruns; run++ {
+		var one outcome
+		fw := &failW{limit: h.Limit}
+		var output io.Writer
+		var of *os.File
+		switch h.Mode {
+		case "osfile":
+			of, err = os.CreateTemp("", "c13out")
+			if err != nil {
+				return oc, err
+			}
+			output = of
+		case "unbuf":
+			output = fw
+		default:
+			output = bufio.NewWriterSize(fw, h.Cap)
 		}
-		defer os.Remove(of.Name())
-		defer of.Close()
-		output = of
-	case "unbuf":
-		output = fw
-	default:
-		bw = bufio.NewWriterSize(fw, h.Cap)
-		output = bw
-	}
-	errBuf := &lockedBuf{}
-	cfg := &interp.Config{Output: output, Error: errBuf, Stdin: strings.NewReader(""), Funcs: funcs, Environ: []string{}}
-	switch h.Out {
-	case "csv":
-		cfg.OutputMode = interp.CSVMode
-	case "tsv":
-		cfg.OutputMode = interp.TSVMode
-	}
-	func() {
-		defer func() {
-			if r := recover(); r != nil {
-				oc.Result = "panic"
-				oc.ErrMsg = fmt.Sprint(r)
+		errBuf := &lockedBuf{}
+		cfg := &interp.Config{Output: output, Error: errBuf, Stdin: strings.NewReader(""), Funcs: funcs, Environ: []string{}}
+		switch h.Out {
+		case "csv":
+			cfg.OutputMode = interp.CSVMode
+		case "tsv":
+			cfg.OutputMode = interp.TSVMode
+		}
+		obs0 := len(obs)
+		func() {
+			defer func() {
+				if r := recover(); r != nil {
+					one.Result = "panic"
+					one.ErrMsg = fmt.Sprint(r)
+				}
+			}()
+			var st int
+			var err error
+			if !multi {
+				st, err = interp.ExecProgram(prog, cfg)
+			} else {
+				if ip == nil {
+					ip, err = interp.New(prog)
+					if err != nil {
+						panic(err)
+					}
+				} else if h.ResetVars {
+					ip.ResetVars()
+				}
+				cfg.Vars = []string{"RUN", strconv.Itoa(run)}
+				st, err = ip.Execute(cfg)
+			}
+			if err != nil {
+				one.Result, one.ErrMsg = "e", err.Error()
+			} else {
+				one.Result = "s:" + strconv.Itoa(st)
 			}
 		}()
-		st, err := interp.ExecProgram(prog, cfg)
-		if err != nil {
-			oc.Result, oc.ErrMsg = "e", err.Error()
+		if h.Mode == "osfile" {
+			b, err := os.ReadFile(of.Name())
+			of.Close()
+			os.Remove(of.Name())
+			if err != nil {
+				return oc, err
+			}
+			one.Out = b
 		} else {
-			oc.Result = "s:" + strconv.Itoa(st)
+			one.Out = fw.snapshot()
 		}
-	}()
-	if h.Mode == "osfile" {
-		b, err := os.ReadFile(of.Name())
-		if err != nil {
-			return oc, err
-		}
-		oc.Out = b
-	} else {
-		oc.Out = fw.snapshot()
-	}
-	oc.Obs = obs
-	oc.Stderr = errBuf.String()
-	oc.Files = map[int][]byte{}
-	var walk func(rel string) error
-	walk = func(rel string) error {
-		ents, err := os.ReadDir(filepathOr(rel))
-		if err != nil {
-			return err
-		}
-		for _, e := range ents {
-			p := e.Name()
-			if rel != "" {
-				p = rel + "/" + e.Name()
-			}
-			if e.IsDir() {
-				if err := walk(p); err != nil {
-					return err
-				}
-				continue
-			}
-			b, err := os.ReadFile(p)
+		one.Obs = append([]string{}, obs[obs0:]...)
+		one.Stderr = errBuf.String()
+		one.Files = map[int][]byte{}
+		var walk func(rel string) error
+		walk = func(rel string) error {
+			ents, err := os.ReadDir(filepathOr(rel))
 			if err != nil {
 				return err
 			}
-			if id, ok := idOf[p]; ok {
-				oc.Files[id] = b
-			} else {
-				oc.Stray = append(oc.Stray, p)
+			for _, e := range ents {
+				p := e.Name()
+				if rel != "" {
+					p = rel + "/" + e.Name()
+				}
+				if e.IsDir() {
+					if err := walk(p); err != nil {
+						return err
+					}
+					continue
+				}
+				b, err := os.ReadFile(p)
+				if err != nil {
+					return err
+				}
+				if id, ok := idOf[p]; ok {
+					one.Files[id] = b
+				} else {
+					one.Stray = append(one.Stray, p)
+				}
 			}
+			return nil
 		}
-		return nil
+		if err := walk(""); err != nil {
+			return oc, err
+		}
+		outs = append(outs, one)
+		if one.Result == "panic" {
+			break
+		}
 	}
-	if err := walk(""); err != nil {
-		return oc, err
-	}
+	oc = outs[0]
+	oc.Next = outs[1:]
 	return oc, nil
 }
 
@@ -788,7 +868,40 @@ func reference(h history) *refRun {
 
 // childOutputAtEndOfRun: is a print | cmd stream whose command writes to the shared stdout still
 // open when the run ends (normally, by exit, or by an error)?
+// split: the runs of a history as single-run histories, each starting from the files the reference
+// semantics says the earlier runs left (a single-run history is its own only part); ok is false from
+// the run on whose starting files the reference cannot tell (timing).
+func (h history) split() (parts []history, ok bool) {
+	if len(h.Runs) == 0 {
+		return []history{h}, true
+	}
+	init := h.Init
+	for _, ops := range h.Runs {
+		hi := h
+		hi.Runs, hi.Ops, hi.Init = nil, ops, init
+		parts = append(parts, hi)
+		r := reference(hi)
+		if r.untimed {
+			return parts, false
+		}
+		init = map[int]string{}
+		for id, b := range r.fs {
+			init[id] = string(b)
+		}
+	}
+	return parts, true
+}
+
 func childOutputAtEndOfRun(h history) bool {
+	if len(h.Runs) > 0 {
+		parts, _ := h.split()
+		for _, hi := range parts {
+			if childOutputAtEndOfRun(hi) {
+				return true
+			}
+		}
+		return false
+	}
 	r := reference(h)
 	for id, st := range r.outs {
 		if sp := specOf(id); st.cmd && (sp.Stdout != "" || sp.Echo) {
@@ -958,16 +1071,6 @@ func randHistory(r *hx.Rand, lean bool) history {
 }
 
 func withMode(h history, mode string, cap, limit int) history {
-	if (h.Out == "csv" || h.Out == "tsv") && mode == "buf" && cap < 4096 {
-		// With a *bufio.Writer Output smaller than 4096 bytes encoding/csv puts a second, private
-		// bufio.Writer on top of it which writeCSV never flushes: the records are lost (F-C13-4,
-		// see csvSmallBufferSearch).  The histories use the sizes for which writeCSV works.
-		if cap >= 64 {
-			cap = 8192
-		} else {
-			cap = 4096
-		}
-	}
 	h.Mode, h.Cap, h.Limit = mode, cap, limit
 	return h
 }
@@ -1065,6 +1168,59 @@ func systematic() []history {
 	return hs
 }
 
+// reused: histories on one reusable Interpreter (interp.New once, one Execute per run).  Every
+// Execute must start with no registered stream: what the previous run left open was closed by its
+// closeAll and is forgotten by resetCore, so a name is opened afresh (> truncates again, a command
+// is started again, close() of a name from the last run returns -1).
+func reused() []history {
+	var hs []history
+	n := 0
+	add := func(tag, out string, init map[int]string, runs ...[]op) {
+		if init == nil {
+			init = map[int]string{}
+		}
+		n++
+		hs = append(hs, history{Limit: -1, Init: init, Runs: runs, Tag: "reused-" + tag, Out: out, ResetVars: n%2 == 0})
+	}
+	run := func(ops ...op) []op { return ops }
+	old := map[int]string{1: "old\n", 2: "keep"}
+	cl := func(id int) op { return op{K: "C", Name: id} }
+	add("file-left-open-trunc", "", old, run(pr("t", 1, "a")), run(pr("t", 1, "b")), run(pr("a", 1, "c"), cl(1)))
+	add("file-left-open-append", "", old, run(pr("a", 1, "a")), run(pr("a", 1, "b")), run(pr("t", 1, "c")))
+	add("trunc-after-append-after-trunc", "", old, run(pr("t", 2, "x")), run(pr("a", 2, "y")), run(pr("t", 2, "z")))
+	add("command-left-open", "", nil, run(pr("p", 10, "a")), run(pr("p", 10, "b"), cl(10), cl(10)), run(cl(10), pr("p", 10, "c")))
+	add("command-status-again", "", nil, run(pr("p", 11, "a")), run(pr("p", 11, "b"), cl(11)), run(pr("p", 11, "c"), cl(11)))
+	add("closed-explicitly-then-reopened", "", old, run(pr("t", 1, "a"), cl(1)), run(pr("a", 1, "b"), cl(1)), run(pr("t", 1, "c")))
+	add("left-open-by-error", "", old, run(pr("t", 1, "a"), pr("p", 10, "p"), op{K: "E"}, pr("o", 0, "not reached")), run(pr("t", 1, "b"), pr("p", 10, "q")))
+	add("left-open-by-exit", "", old, run(pr("a", 1, "a"), pr("p", 11, "p"), op{K: "X", Code: 3}), run(pr("a", 2, "other")), run(pr("a", 1, "b"), pr("p", 11, "q"), cl(11)))
+	add("reader-left-open", "", old, run(op{K: "G", Name: 1}), run(pr("t", 1, "now a writer")), run(op{K: "G", Name: 1}, op{K: "G", Name: 1}))
+	add("input-command-left-open", "", nil, run(op{K: "K", Name: 15}), run(op{K: "K", Name: 15}, cl(15)), run(cl(15)))
+	add("close-and-fflush-of-last-runs-names", "", nil, run(pr("t", 1, "a"), pr("p", 10, "b")), run(cl(1), cl(10), op{K: "F", Name: 1}, op{K: "F", Name: 10}, op{K: "F", Name: -1}))
+	add("stdout-each-run", "", nil, run(pr("o", 0, "one"), pr("t", 1, "f")), run(pr("o", 0, "two"), op{K: "S", Name: 12}), run(prl("o", 0, "three")))
+	add("same-and-different-names", "", old, run(pr("t", 1, "a"), pr("a", 2, "b")), run(pr("a", 2, "c"), pr("p", 10, "d")), run(pr("t", 1, "e"), pr("p", 10, "f")))
+	add("csv-records", "csv", old, run(prl("t", 1, "a", ""), prl("o", 0, "")), run(prl("t", 1, ""), prl("a", 2, "x,y")), run(prl("a", 1, "z"), prl("o", 0, "q", "r")))
+	add("tsv-command", "tsv", nil, run(prl("p", 10, "a", "b")), run(prl("p", 10, ""), cl(10)))
+	return hs
+}
+
+// randReused: 2 or 3 short random runs on one Interpreter
+func randReused(r *hx.Rand) history {
+	h := history{Limit: -1, Init: map[int]string{}, Tag: "reused-random", ResetVars: r.Bool()}
+	nr := 2 + r.Intn(2)
+	for i := 0; i < nr; i++ {
+		part := randHistory(r, true)
+		if i == 0 {
+			h.Init, h.Out = part.Init, part.Out
+		}
+		ops := part.Ops
+		if len(ops) > 6 {
+			ops = ops[:6]
+		}
+		h.Runs = append(h.Runs, ops)
+	}
+	return h
+}
+
 // ---------------------------------------------------------------- checking
 
 type kase struct {
@@ -1096,6 +1252,35 @@ func detail(h history, extra map[string]any) map[string]any {
 }
 
 // oracle: the property's equations on the implementation's outcome
+// oracleAll: the oracle on every run of the history.  For a reused Interpreter each run is judged
+// like a fresh program started on the files the earlier runs left: an Execute must not remember
+// the previous run's streams.
+func oracleAll(h history, oc outcome, rep *hx.Report) {
+	if len(h.Runs) == 0 {
+		oracle(h, oc, rep)
+		return
+	}
+	parts, _ := h.split()
+	ocs := oc.all()
+	for i, hi := range parts {
+		if i >= len(ocs) {
+			break
+		}
+		tmp := hx.NewReport("C13", 0, "")
+		oracle(hi, ocs[i], tmp)
+		rep.SearchEvals++
+		for _, f := range tmp.Failures {
+			extra := map[string]any{"run": i + 1, "files_before_this_run": hi.Init}
+			for _, k := range []string{"want", "got", "panic", "err", "stdout_wanted_bytes"} {
+				if v, ok := f.Detail[k]; ok {
+					extra[k] = v
+				}
+			}
+			rep.Fail(hx.Failure{Class: "reused Interpreter: " + f.Class, Oracle: f.Oracle, Detail: detail(h, extra)})
+		}
+	}
+}
+
 func oracle(h history, oc outcome, rep *hx.Report) (failed bool) {
 	fail := func(class, orc string, extra map[string]any) {
 		failed = true
@@ -1446,14 +1631,17 @@ func replay(o hx.Opts) {
 			os.Exit(2)
 		}
 		fmt.Println("implementation:", oc.canon(), oc.ErrMsg)
-		ref := reference(h)
-		fmt.Printf("reference: res=%s out=%s obs=%s\n", ref.result, hx.Hex(ref.stdout), strings.Join(ref.obs, ","))
+		parts, _ := h.split()
+		for i, hi := range parts {
+			ref := reference(hi)
+			fmt.Printf("reference, run %d: res=%s out=%s obs=%s\n", i+1, ref.result, hx.Hex(ref.stdout), strings.Join(ref.obs, ","))
+		}
 		if o.ModelRun != "" {
 			if m, err := hx.ModelEval(o.ModelRun, []string{h.modelLine()}); err == nil {
 				fmt.Println("model:         ", m[0])
 			}
 		}
-		oracle(h, oc, rep)
+		oracleAll(h, oc, rep)
 	}
 	for _, f := range rep.Failures {
 		fmt.Printf("STILL FAILS class=%q oracle=%q want=%v got=%v\n", f.Class, f.Oracle, f.Detail["want"], f.Detail["got"])
@@ -1495,11 +1683,28 @@ func main() {
 	modes := []struct {
 		m   string
 		cap int
-	}{{"osfile", 0}, {"unbuf", 0}, {"buf", 16}, {"buf", 1}, {"buf", 64}, {"buf", 5}}
+	}{{"osfile", 0}, {"unbuf", 0}, {"buf", 16}, {"buf", 1}, {"buf", 64}, {"buf", 5}, {"buf", 1024}, {"buf", 4096}, {"buf", 4095}, {"buf", 8192}}
 	for _, h := range systematic() {
 		for _, m := range modes[:3] {
 			hs = append(hs, withMode(h, m.m, m.cap, -1))
 		}
+		if h.Out != "" {
+			// both sides of writeCSV's test "is p.output a *bufio.Writer of at least 4096 bytes"
+			hs = append(hs, withMode(h, "buf", 4095, -1), withMode(h, "buf", 4096, -1))
+		}
+	}
+	for _, h := range reused() {
+		for _, m := range modes[:3] {
+			hs = append(hs, withMode(h, m.m, m.cap, -1))
+		}
+	}
+	nReused := 40
+	if o.Tier == "thorough" {
+		nReused = 3000
+	}
+	for i := 0; i < nReused; i++ {
+		m := modes[r.Intn(len(modes))]
+		hs = append(hs, withMode(randReused(r), m.m, m.cap, -1))
 	}
 	for i := 0; i < nRand; i++ {
 		h := randHistory(r, false)
@@ -1604,6 +1809,17 @@ func main() {
 		for _, op := range k.h.Ops {
 			rep.Count("op:" + op.K + op.Dest)
 		}
+		for _, ops := range k.h.Runs {
+			for _, op := range ops {
+				rep.Count("op:" + op.K + op.Dest)
+			}
+		}
+		if k.h.Out != "" {
+			rep.Count("outputmode:" + k.h.Out)
+		}
+		if len(k.h.Runs) > 0 {
+			rep.Count(fmt.Sprintf("reused-interpreter:%d-runs", len(k.h.Runs)))
+		}
 		rep.Count("result:" + strings.SplitN(k.impl.Result, ":", 2)[0])
 		if len(k.impl.Out) > 0 || len(k.impl.Files) > len(k.h.Init) || len(k.impl.Obs) > 0 {
 			rep.Distinct(k.line)
@@ -1619,7 +1835,7 @@ func main() {
 				rep.Mismatch(hx.Mismatch{Class: k.class, Input: k.h.program() + fmt.Sprintf(" mode=%s cap=%d limit=%d outputmode=%q", k.h.Mode, k.h.Cap, k.h.Limit, k.h.Out), Impl: k.impl.canon(), Model: model[i], Note: k.line})
 			}
 		}
-		oracle(k.h, k.impl, rep)
+		oracleAll(k.h, k.impl, rep)
 	}
 	tries := 2
 	if o.Tier == "thorough" {
